@@ -1,5 +1,11 @@
 /-
   Byte level = instruction level for the arms of opcode class `memOpcodes` (see Lemmas/X86Enc/Arm.lean).
+
+  Design (fast: every declaration well under a second): both `arm` functions, applied to an instruction with a LITERAL
+  opcode, reduce definitionally to "match the two mapped registers, then `.ok (…, 1)`" (`mencE` / `mencA` below, checked
+  by `rfl`: the 150-arm `match` on the opcode evaluates away).  `menc_core` does the common part once; one lemma per
+  opcode supplies the two descriptions and the `prim_emits_…` fact relating them; `arm_enc_mem` splits the class
+  membership into the 22 literal opcodes.
 -/
 import RbpfModel.Model.JitSim
 import RbpfModel.Lemmas.X86Enc.Prim
@@ -9,10 +15,225 @@ open Rbpf.JitAst (AI Tgt)
 open Rbpf.JitEmit (Em Fail)
 open Rbpf.JitSim (aluOpcodes mulDivOpcodes jumpOpcodes memOpcodes)
 
+-- ---------------------------------------------------------------------------------------------------------
+-- the common shape of a one-slot arm
+
+/-- byte level: map both registers (panic if one is out of range), then emit `f d s`; one slot -/
+def mencE (dst src : BitVec 8) (f : Nat → Nat → Em) : Except Fail (Em × Nat) :=
+  match JitEmit.mapRegister? dst.toNat, JitEmit.mapRegister? src.toNat with
+  | none, _ => .error .panic
+  | _, none => .error .panic
+  | some d, some s => .ok (f d s, 1)
+
+/-- instruction level: the same with the instruction list `g d s` -/
+def mencA (dst src : BitVec 8) (g : Nat → Nat → List AI) : Except Fail (List AI × Nat) :=
+  match JitEmit.mapRegister? dst.toNat, JitEmit.mapRegister? src.toNat with
+  | none, _ => .error .panic
+  | _, none => .error .panic
+  | some d, some s => .ok (g d s, 1)
+
+/-- if the byte-level arm is `mencE dst src f`, the instruction-level arm is `mencA dst src g`, and `f d s` emits
+    `g d s` for mapped registers `d s`, then the arm satisfies the statement of `arm_enc` -/
+theorem menc_core {e e' : Em} {n : Nat} {dst src : BitVec 8} {f : Nat → Nat → Em} {g : Nat → Nat → List AI}
+    {X : Except Fail (Em × Nat)} {Y : Except Fail (List AI × Nat)} (hX : X = mencE dst src f) (hY : Y = mencA dst src g)
+    (H : ∀ d s, JitEmit.mapRegister? dst.toNat = some d → JitEmit.mapRegister? src.toNat = some s → Emits e (f d s) (g d s))
+    (h : X = .ok (e', n)) : ∃ ais, Y = .ok (ais, n) ∧ Emits e e' ais := by
+  subst hX hY
+  unfold mencE at h
+  unfold mencA
+  split at h
+  · cases h
+  · cases h
+  · rename_i d s hd hs
+    cases h
+    exact ⟨_, rfl, H d s hd hs⟩
+
+/-- the side conditions of the memory primitives, for a mapped register -/
+theorem menc_reg {r x : Nat} (h : JitEmit.mapRegister? r = some x) : x < 16 ∧ x &&& 7 ≠ 4 := prim_mapRegister h
+
+-- ---------------------------------------------------------------------------------------------------------
+-- the four shapes, for any size (the opcode lemmas instantiate `sz` with a literal)
+
+theorem menc_load (e : Em) (sz : Nat) (hsz : sz = 8 ∨ sz = 16 ∨ sz = 32 ∨ sz = 64) (dst src : BitVec 8) (off : BitVec 16) :
+    ∀ d s, JitEmit.mapRegister? dst.toNat = some d → JitEmit.mapRegister? src.toNat = some s →
+      Emits e (JitEmit.emitLoad e sz s d off.toInt) [.i (.load sz d s off.toInt)] :=
+  fun d s hd hs => prim_emits_load e sz s d _ hsz (menc_reg hs).1 (menc_reg hd).1 (menc_reg hs).2 (prim_off_range off)
+
+theorem menc_store (e : Em) (sz : Nat) (hsz : sz = 8 ∨ sz = 16 ∨ sz = 32 ∨ sz = 64) (dst src : BitVec 8) (off : BitVec 16) :
+    ∀ d s, JitEmit.mapRegister? dst.toNat = some d → JitEmit.mapRegister? src.toNat = some s →
+      Emits e (JitEmit.emitStore e sz s d off.toInt) [.i (.store sz s d off.toInt)] :=
+  fun d s hd hs => prim_emits_store e sz s d _ hsz (menc_reg hs).1 (menc_reg hd).1 (menc_reg hd).2 (prim_off_range off)
+
+theorem menc_storeImm (e : Em) (sz : Nat) (hsz : sz = 8 ∨ sz = 16 ∨ sz = 32 ∨ sz = 64) (dst src : BitVec 8) (off : BitVec 16)
+    (imm : BitVec 32) :
+    ∀ d s, JitEmit.mapRegister? dst.toNat = some d → JitEmit.mapRegister? src.toNat = some s →
+      Emits e (JitEmit.emitStoreImm32 e sz d off.toInt imm.toInt) [.i (.storeI sz d off.toInt (JitAst.storeImm sz imm))] :=
+  fun d _ hd _ => prim_emits_storeImm e sz d _ imm hsz (menc_reg hd).1 (menc_reg hd).2 (prim_off_range off)
+
+theorem menc_ldabs (e : Em) (sz : Nat) (hsz : sz = 8 ∨ sz = 16 ∨ sz = 32 ∨ sz = 64) (dst src : BitVec 8) (imm : BitVec 32) :
+    ∀ d s, JitEmit.mapRegister? dst.toNat = some d → JitEmit.mapRegister? src.toNat = some s →
+      Emits e (JitEmit.emitLoadPacket e sz JitEmit.R10 imm.toInt) (JitAst.loadPacket sz JitAst.R10 imm) :=
+  fun _ _ _ _ => prim_emits_loadPacket e sz JitEmit.R10 imm hsz (by decide) (by decide)
+
+theorem menc_ldind (e : Em) (sz : Nat) (hsz : sz = 8 ∨ sz = 16 ∨ sz = 32 ∨ sz = 64) (dst src : BitVec 8) (imm : BitVec 32) :
+    ∀ d s, JitEmit.mapRegister? dst.toNat = some d → JitEmit.mapRegister? src.toNat = some s →
+      Emits e (JitEmit.emitLoadPacket (JitEmit.emitAlu64 (JitEmit.emitMov e JitEmit.R10 JitEmit.R11) 0x01 s JitEmit.R11) sz
+          JitEmit.R11 imm.toInt)
+        ([.i (JitAst.movRR JitAst.R10 JitAst.R11), .i (.aluRR true .add s JitAst.R11)] ++ JitAst.loadPacket sz JitAst.R11 imm) :=
+  fun _ s _ hs =>
+    prim_emits_trans
+      (prim_emits_cons (prim_emits_mov e JitEmit.R10 JitEmit.R11 (by decide) (by decide))
+        (prim_emits_alu64 _ 0x01 s JitEmit.R11 .add rfl (menc_reg hs).1 (by decide)))
+      (prim_emits_loadPacket _ sz JitEmit.R11 imm hsz (by decide) (by decide))
+
+-- ---------------------------------------------------------------------------------------------------------
+-- one lemma per opcode
+
+section
+variable (e e' : Em) (haddr : Nat → Option Nat) (pc n : Nat) (dst src : BitVec 8) (off : BitVec 16) (imm : BitVec 32)
+  (nx : Option Insn)
+
+-- ldx
+theorem menc_71 (h : JitEmit.arm e haddr pc ⟨0x71, dst, src, off, imm⟩ nx = .ok (e', n)) :
+    ∃ ais, JitAst.arm haddr pc ⟨0x71, dst, src, off, imm⟩ nx = .ok (ais, n) ∧ Emits e e' ais :=
+  menc_core rfl rfl (menc_load e 8 (by decide) dst src off) h
+theorem menc_69 (h : JitEmit.arm e haddr pc ⟨0x69, dst, src, off, imm⟩ nx = .ok (e', n)) :
+    ∃ ais, JitAst.arm haddr pc ⟨0x69, dst, src, off, imm⟩ nx = .ok (ais, n) ∧ Emits e e' ais :=
+  menc_core rfl rfl (menc_load e 16 (by decide) dst src off) h
+theorem menc_61 (h : JitEmit.arm e haddr pc ⟨0x61, dst, src, off, imm⟩ nx = .ok (e', n)) :
+    ∃ ais, JitAst.arm haddr pc ⟨0x61, dst, src, off, imm⟩ nx = .ok (ais, n) ∧ Emits e e' ais :=
+  menc_core rfl rfl (menc_load e 32 (by decide) dst src off) h
+theorem menc_79 (h : JitEmit.arm e haddr pc ⟨0x79, dst, src, off, imm⟩ nx = .ok (e', n)) :
+    ∃ ais, JitAst.arm haddr pc ⟨0x79, dst, src, off, imm⟩ nx = .ok (ais, n) ∧ Emits e e' ais :=
+  menc_core rfl rfl (menc_load e 64 (by decide) dst src off) h
+
+-- st (immediate); for 32 and 64 bits the instruction-level description carries `imm` itself
+theorem menc_72 (h : JitEmit.arm e haddr pc ⟨0x72, dst, src, off, imm⟩ nx = .ok (e', n)) :
+    ∃ ais, JitAst.arm haddr pc ⟨0x72, dst, src, off, imm⟩ nx = .ok (ais, n) ∧ Emits e e' ais :=
+  menc_core rfl rfl (menc_storeImm e 8 (by decide) dst src off imm) h
+theorem menc_6a (h : JitEmit.arm e haddr pc ⟨0x6a, dst, src, off, imm⟩ nx = .ok (e', n)) :
+    ∃ ais, JitAst.arm haddr pc ⟨0x6a, dst, src, off, imm⟩ nx = .ok (ais, n) ∧ Emits e e' ais :=
+  menc_core rfl rfl (menc_storeImm e 16 (by decide) dst src off imm) h
+theorem menc_62 (h : JitEmit.arm e haddr pc ⟨0x62, dst, src, off, imm⟩ nx = .ok (e', n)) :
+    ∃ ais, JitAst.arm haddr pc ⟨0x62, dst, src, off, imm⟩ nx = .ok (ais, n) ∧ Emits e e' ais :=
+  menc_core (g := fun d _ => [.i (.storeI 32 d off.toInt imm)]) rfl rfl
+    (fun d s hd hs => prim_emits_congr (menc_storeImm e 32 (by decide) dst src off imm d s hd hs) (by rw [prim_storeImm32])) h
+theorem menc_7a (h : JitEmit.arm e haddr pc ⟨0x7a, dst, src, off, imm⟩ nx = .ok (e', n)) :
+    ∃ ais, JitAst.arm haddr pc ⟨0x7a, dst, src, off, imm⟩ nx = .ok (ais, n) ∧ Emits e e' ais :=
+  menc_core (g := fun d _ => [.i (.storeI 64 d off.toInt imm)]) rfl rfl
+    (fun d s hd hs => prim_emits_congr (menc_storeImm e 64 (by decide) dst src off imm d s hd hs) (by rw [prim_storeImm64])) h
+
+-- stx
+theorem menc_73 (h : JitEmit.arm e haddr pc ⟨0x73, dst, src, off, imm⟩ nx = .ok (e', n)) :
+    ∃ ais, JitAst.arm haddr pc ⟨0x73, dst, src, off, imm⟩ nx = .ok (ais, n) ∧ Emits e e' ais :=
+  menc_core rfl rfl (menc_store e 8 (by decide) dst src off) h
+theorem menc_6b (h : JitEmit.arm e haddr pc ⟨0x6b, dst, src, off, imm⟩ nx = .ok (e', n)) :
+    ∃ ais, JitAst.arm haddr pc ⟨0x6b, dst, src, off, imm⟩ nx = .ok (ais, n) ∧ Emits e e' ais :=
+  menc_core rfl rfl (menc_store e 16 (by decide) dst src off) h
+theorem menc_63 (h : JitEmit.arm e haddr pc ⟨0x63, dst, src, off, imm⟩ nx = .ok (e', n)) :
+    ∃ ais, JitAst.arm haddr pc ⟨0x63, dst, src, off, imm⟩ nx = .ok (ais, n) ∧ Emits e e' ais :=
+  menc_core rfl rfl (menc_store e 32 (by decide) dst src off) h
+theorem menc_7b (h : JitEmit.arm e haddr pc ⟨0x7b, dst, src, off, imm⟩ nx = .ok (e', n)) :
+    ∃ ais, JitAst.arm haddr pc ⟨0x7b, dst, src, off, imm⟩ nx = .ok (ais, n) ∧ Emits e e' ais :=
+  menc_core rfl rfl (menc_store e 64 (by decide) dst src off) h
+
+-- xadd
+theorem menc_c3 (h : JitEmit.arm e haddr pc ⟨0xc3, dst, src, off, imm⟩ nx = .ok (e', n)) :
+    ∃ ais, JitAst.arm haddr pc ⟨0xc3, dst, src, off, imm⟩ nx = .ok (ais, n) ∧ Emits e e' ais :=
+  menc_core (g := fun d s => [.i (.lockAdd false s d off.toInt)]) rfl rfl
+    (fun d s hd hs => prim_emits_xadd32 e s d _ (menc_reg hs).1 (menc_reg hd).1 (menc_reg hd).2 (prim_off_range off)) h
+theorem menc_db (h : JitEmit.arm e haddr pc ⟨0xdb, dst, src, off, imm⟩ nx = .ok (e', n)) :
+    ∃ ais, JitAst.arm haddr pc ⟨0xdb, dst, src, off, imm⟩ nx = .ok (ais, n) ∧ Emits e e' ais :=
+  menc_core (g := fun d s => [.i (.lockAdd true s d off.toInt)]) rfl rfl
+    (fun d s hd hs => prim_emits_xadd64 e s d _ (menc_reg hs).1 (menc_reg hd).1 (menc_reg hd).2 (prim_off_range off)) h
+
+-- ldabs
+theorem menc_30 (h : JitEmit.arm e haddr pc ⟨0x30, dst, src, off, imm⟩ nx = .ok (e', n)) :
+    ∃ ais, JitAst.arm haddr pc ⟨0x30, dst, src, off, imm⟩ nx = .ok (ais, n) ∧ Emits e e' ais :=
+  menc_core rfl rfl (menc_ldabs e 8 (by decide) dst src imm) h
+theorem menc_28 (h : JitEmit.arm e haddr pc ⟨0x28, dst, src, off, imm⟩ nx = .ok (e', n)) :
+    ∃ ais, JitAst.arm haddr pc ⟨0x28, dst, src, off, imm⟩ nx = .ok (ais, n) ∧ Emits e e' ais :=
+  menc_core rfl rfl (menc_ldabs e 16 (by decide) dst src imm) h
+theorem menc_20 (h : JitEmit.arm e haddr pc ⟨0x20, dst, src, off, imm⟩ nx = .ok (e', n)) :
+    ∃ ais, JitAst.arm haddr pc ⟨0x20, dst, src, off, imm⟩ nx = .ok (ais, n) ∧ Emits e e' ais :=
+  menc_core rfl rfl (menc_ldabs e 32 (by decide) dst src imm) h
+theorem menc_38 (h : JitEmit.arm e haddr pc ⟨0x38, dst, src, off, imm⟩ nx = .ok (e', n)) :
+    ∃ ais, JitAst.arm haddr pc ⟨0x38, dst, src, off, imm⟩ nx = .ok (ais, n) ∧ Emits e e' ais :=
+  menc_core rfl rfl (menc_ldabs e 64 (by decide) dst src imm) h
+
+-- ldind
+theorem menc_50 (h : JitEmit.arm e haddr pc ⟨0x50, dst, src, off, imm⟩ nx = .ok (e', n)) :
+    ∃ ais, JitAst.arm haddr pc ⟨0x50, dst, src, off, imm⟩ nx = .ok (ais, n) ∧ Emits e e' ais :=
+  menc_core rfl rfl (menc_ldind e 8 (by decide) dst src imm) h
+theorem menc_48 (h : JitEmit.arm e haddr pc ⟨0x48, dst, src, off, imm⟩ nx = .ok (e', n)) :
+    ∃ ais, JitAst.arm haddr pc ⟨0x48, dst, src, off, imm⟩ nx = .ok (ais, n) ∧ Emits e e' ais :=
+  menc_core rfl rfl (menc_ldind e 16 (by decide) dst src imm) h
+theorem menc_40 (h : JitEmit.arm e haddr pc ⟨0x40, dst, src, off, imm⟩ nx = .ok (e', n)) :
+    ∃ ais, JitAst.arm haddr pc ⟨0x40, dst, src, off, imm⟩ nx = .ok (ais, n) ∧ Emits e e' ais :=
+  menc_core rfl rfl (menc_ldind e 32 (by decide) dst src imm) h
+theorem menc_58 (h : JitEmit.arm e haddr pc ⟨0x58, dst, src, off, imm⟩ nx = .ok (e', n)) :
+    ∃ ais, JitAst.arm haddr pc ⟨0x58, dst, src, off, imm⟩ nx = .ok (ais, n) ∧ Emits e e' ais :=
+  menc_core rfl rfl (menc_ldind e 64 (by decide) dst src imm) h
+
+end
+
+-- ---------------------------------------------------------------------------------------------------------
+-- the class
+
 theorem arm_enc_mem (e e' : Em) (haddr : Nat → Option Nat) (pc n : Nat) (i : Insn) (nx : Option Insn)
     (hc : i.opc.toNat ∈ memOpcodes)
     (h : JitEmit.arm e haddr pc i nx = .ok (e', n)) :
     ∃ ais, JitAst.arm haddr pc i nx = .ok (ais, n) ∧ Emits e e' ais := by
-  sorry
+  obtain ⟨opc, dst, src, off, imm⟩ := i
+  have hc' : opc.toNat = 0x61 ∨ opc.toNat = 0x69 ∨ opc.toNat = 0x71 ∨ opc.toNat = 0x79 ∨ opc.toNat = 0x62 ∨ opc.toNat = 0x6a ∨
+      opc.toNat = 0x72 ∨ opc.toNat = 0x7a ∨ opc.toNat = 0x63 ∨ opc.toNat = 0x6b ∨ opc.toNat = 0x73 ∨ opc.toNat = 0x7b ∨
+      opc.toNat = 0xc3 ∨ opc.toNat = 0xdb ∨ opc.toNat = 0x20 ∨ opc.toNat = 0x28 ∨ opc.toNat = 0x30 ∨ opc.toNat = 0x38 ∨
+      opc.toNat = 0x40 ∨ opc.toNat = 0x48 ∨ opc.toNat = 0x50 ∨ opc.toNat = 0x58 := by
+    simpa only [memOpcodes, List.mem_cons, List.mem_nil_iff, or_false] using hc
+  rcases hc' with k | k | k | k | k | k | k | k | k | k | k | k | k | k | k | k | k | k | k | k | k | k
+  · obtain rfl : opc = 0x61 := BitVec.eq_of_toNat_eq k
+    exact menc_61 e e' haddr pc n dst src off imm nx h
+  · obtain rfl : opc = 0x69 := BitVec.eq_of_toNat_eq k
+    exact menc_69 e e' haddr pc n dst src off imm nx h
+  · obtain rfl : opc = 0x71 := BitVec.eq_of_toNat_eq k
+    exact menc_71 e e' haddr pc n dst src off imm nx h
+  · obtain rfl : opc = 0x79 := BitVec.eq_of_toNat_eq k
+    exact menc_79 e e' haddr pc n dst src off imm nx h
+  · obtain rfl : opc = 0x62 := BitVec.eq_of_toNat_eq k
+    exact menc_62 e e' haddr pc n dst src off imm nx h
+  · obtain rfl : opc = 0x6a := BitVec.eq_of_toNat_eq k
+    exact menc_6a e e' haddr pc n dst src off imm nx h
+  · obtain rfl : opc = 0x72 := BitVec.eq_of_toNat_eq k
+    exact menc_72 e e' haddr pc n dst src off imm nx h
+  · obtain rfl : opc = 0x7a := BitVec.eq_of_toNat_eq k
+    exact menc_7a e e' haddr pc n dst src off imm nx h
+  · obtain rfl : opc = 0x63 := BitVec.eq_of_toNat_eq k
+    exact menc_63 e e' haddr pc n dst src off imm nx h
+  · obtain rfl : opc = 0x6b := BitVec.eq_of_toNat_eq k
+    exact menc_6b e e' haddr pc n dst src off imm nx h
+  · obtain rfl : opc = 0x73 := BitVec.eq_of_toNat_eq k
+    exact menc_73 e e' haddr pc n dst src off imm nx h
+  · obtain rfl : opc = 0x7b := BitVec.eq_of_toNat_eq k
+    exact menc_7b e e' haddr pc n dst src off imm nx h
+  · obtain rfl : opc = 0xc3 := BitVec.eq_of_toNat_eq k
+    exact menc_c3 e e' haddr pc n dst src off imm nx h
+  · obtain rfl : opc = 0xdb := BitVec.eq_of_toNat_eq k
+    exact menc_db e e' haddr pc n dst src off imm nx h
+  · obtain rfl : opc = 0x20 := BitVec.eq_of_toNat_eq k
+    exact menc_20 e e' haddr pc n dst src off imm nx h
+  · obtain rfl : opc = 0x28 := BitVec.eq_of_toNat_eq k
+    exact menc_28 e e' haddr pc n dst src off imm nx h
+  · obtain rfl : opc = 0x30 := BitVec.eq_of_toNat_eq k
+    exact menc_30 e e' haddr pc n dst src off imm nx h
+  · obtain rfl : opc = 0x38 := BitVec.eq_of_toNat_eq k
+    exact menc_38 e e' haddr pc n dst src off imm nx h
+  · obtain rfl : opc = 0x40 := BitVec.eq_of_toNat_eq k
+    exact menc_40 e e' haddr pc n dst src off imm nx h
+  · obtain rfl : opc = 0x48 := BitVec.eq_of_toNat_eq k
+    exact menc_48 e e' haddr pc n dst src off imm nx h
+  · obtain rfl : opc = 0x50 := BitVec.eq_of_toNat_eq k
+    exact menc_50 e e' haddr pc n dst src off imm nx h
+  · obtain rfl : opc = 0x58 := BitVec.eq_of_toNat_eq k
+    exact menc_58 e e' haddr pc n dst src off imm nx h
 
 end Rbpf.JitEnc
